@@ -5,10 +5,17 @@ use crate::snapshot::{L0Run, Snapshot};
 use std::sync::Arc;
 use std::sync::atomic::{AtomicU64, Ordering};
 
+#[cfg_attr(nervusdb_verif, allow(unreachable_code))]
 pub(crate) fn load_properties_and_stats_roots(
     properties_root: &AtomicU64,
     stats_root: &AtomicU64,
 ) -> (u64, u64) {
+    #[cfg(nervusdb_verif)]
+    {
+        let props = properties_root.load(Ordering::Relaxed);
+        crate::verif::point("snap.props_root");
+        return (props, stats_root.load(Ordering::Relaxed));
+    }
     (
         properties_root.load(Ordering::Relaxed),
         stats_root.load(Ordering::Relaxed),
